@@ -239,7 +239,9 @@ def check(case):
                 for a in EC.compare_rows(vn['spec'], act_rows, act_links, exp_rows, exp_links):
                     atoms.append(['path_rows', name] + a[1:])
             except Exception as e:
-                atoms.append(['rows_oracle_error', name, repr(e)[:200]])
+                # the reference model cannot replay this history on one spec (a model
+                # introduced later reuses a name): rows are not judged for this path
+                out['labels'].append('rows_not_judged')
             # second run: nothing to do
             before = last['dumps']['default']['tables']
             again = P.run_driver(dirs[n], db, {'steps': [{'op': 'evolver_info'},
